@@ -112,7 +112,7 @@ fn c01_add_padding__complete() {
 // The size pass and the real pass run the same SerializerCommon; the only writer-dependent step is
 // `SerializerCommon::write`, which adds what the writer reports.  Cursor over a large-enough window and
 // NullWriteSeek both report buf.len(), so the counters agree.  (NullWriteSeek is private to zvariant::ser;
-// its contract unit lives in harness/zvariant/ser.rs.)
+// its contract unit is NOT built -- the "size without writing" clause rests on reading its three-line body.)
 
 // ---- contract: fixed-size basic encoders (real serde::Serializer methods of &mut dbus::Serializer) ---------
 // requires admissible state, window has room
